@@ -89,13 +89,21 @@ upcase_string(const string &str) {
 
 /**
  * Finds a dependency cycle between the given dependency mapping, starting at
- * the node that is already placed in the given cycle vector.
+ * the node that is already placed in the given cycle vector.  The nodes from
+ * which everything reachable has been visited without finding a cycle are
+ * collected in finished, so that no node is expanded twice.
  */
-static bool find_dependency_cycle(vector_string &cycle, std::map<string, std::set<string> > &dependencies) {
+static bool find_dependency_cycle(vector_string &cycle, std::map<string, std::set<string> > &dependencies, std::set<string> &finished) {
   assert(!cycle.empty());
 
   const std::set<string> &deps = dependencies[cycle.back()];
   for (auto it = deps.begin(); it != deps.end(); ++it) {
+    if (finished.count(*it) != 0) {
+      // We have already been everywhere that can be reached from there, and
+      // found no cycle.
+      continue;
+    }
+
     auto it2 = std::find(cycle.begin(), cycle.end(), *it);
     if (it2 != cycle.end()) {
       // Chop off the part of the chain that is not relevant.
@@ -106,12 +114,13 @@ static bool find_dependency_cycle(vector_string &cycle, std::map<string, std::se
 
     // Recurse.
     cycle.push_back(*it);
-    if (find_dependency_cycle(cycle, dependencies)) {
+    if (find_dependency_cycle(cycle, dependencies, finished)) {
       return true;
     }
     cycle.pop_back();
   }
 
+  finished.insert(cycle.back());
   return false;
 }
 
@@ -259,7 +268,8 @@ int write_python_table_native(std::ostream &out) {
         // want to let the user know about this.
         vector_string cycle;
         cycle.push_back(library_name);
-        if (!find_dependency_cycle(cycle, dependencies)) {
+        std::set<string> finished;
+        if (!find_dependency_cycle(cycle, dependencies, finished)) {
           continue;
         }
         assert(cycle.size() >= 2);
